@@ -143,6 +143,7 @@ PROPS["C18"] = dict(
         "c18_shared_two_timers": dict(cap=3600, tier="thorough"),
         "c18_local_timer_recorded": dict(cap=2400),
         "c18_local_timer_with_buffered_observation": dict(cap=2400),
+        "c18_local_timer_discarded_with_buffered_observation": dict(cap=2400, tier="thorough"),
         "c18_local_timer_discarded_or_dropped": dict(cap=2400),
         "c18_observe_closure_duration": dict(cap=2400),
     },
@@ -182,8 +183,8 @@ PROPS["C15"] = dict(
         "c15_id_same_shape_22": dict(cap=2400, tier="thorough"),
         "c15_id_empty_value_position": dict(cap=2400),
         "c15_id_two_const_labels_order_independent": dict(cap=2400),
-        "c15_dim_hash_variable_label_sets": dict(cap=2400),
-        "c15_dim_hash_const_vs_variable": dict(cap=2400),
+        "c15_dim_hash_variable_label_sets": dict(cap=5400, tier="thorough"),
+        "c15_dim_hash_const_vs_variable": dict(cap=5400, tier="thorough"),
     },
     functions=["Desc::new (id and dim_hash computation, const label pair sorting)", "desc::is_valid_metric_name", "desc::is_valid_label_name"],
     bounds="metric name 1..=2 bytes and one const-label value 0..=2 bytes (ASCII, symbolic); two const labels with 1-byte symbolic values in both insertion orders and every map iteration order; help 1 symbolic lowercase letter; variable-label lists from {[], [x], [y], [x,y], [y,x]}; hashed streams <= 8 bytes; unwind 6",
